@@ -530,7 +530,8 @@ def check_C19(tier):
     c.mc("Meta", "MC_C19.cfg", dict(Deviations="{}", Emit="Emit"), timeout=900, case_file=cp,
          label="Add -> (Seal/Unseal) -> Tamper -> Get with symbolic boxes: RoundTrip, Authentic, KeyRefusal, Fresh")
     for dev, inv in [("ConstantNonce", "Fresh"), ("MacNotChecked", "Authentic"), ("ZeroKeyAccepted", "KeyRefusal"), ("PlaintextFallback", "Authentic"),
-                     ("ViewCachesPlaintext", ["KeyRefusal", "Authentic"]), ("SparseKeyRefused", "RoundTrip")]:
+                     ("ViewCachesPlaintext", ["KeyRefusal", "Authentic"]), ("SparseKeyRefused", "RoundTrip"), ("OptionEncryptsOnce", "Fresh"),
+                     ("PlaintextAliased", "Stable")]:
         c.mc("Meta", "MC_C19.cfg", dict(Deviations='{"%s"}' % dev, Emit=""), expect_violation=inv, label="sensitivity: " + dev)
     c.replay("metaenc", cp, rule="carrier {Meta, its ReadOnly view, delegation, invocation} x {string, bytes} API x 4 plaintext classes x 10 key classes "
              "(incl. one-hot keys: every position of the single non-zero byte) for adding x through seal/unseal or not x tamper region {none, nonce, "
